@@ -11,6 +11,7 @@ import (
 
 	"github.com/pion/interceptor"
 	"github.com/pion/interceptor/pkg/rfc8888"
+	"github.com/pion/interceptor/pkg/rtpfb"
 	"github.com/pion/interceptor/pkg/twcc"
 	"github.com/pion/interceptor/pkg/verifhooks"
 	"github.com/pion/rtcp"
@@ -375,6 +376,252 @@ func (c ccCase) toCase(buckets ...string) cq.Case {
 		Coq:  cq.T(cq.L(c.coq), cq.LZ(c.Errs), cq.L(outs)),
 		JSON: c, Buckets: buckets, Trivial: nacks == 0,
 	}
+}
+
+// ---------- rtpfb cases ----------
+
+const transportCCURI = "http://www.ietf.org/id/draft-holmer-rmcat-transport-wide-cc-extensions-01"
+
+var tbase = func() *big.Int {
+	b := big.NewInt(1700000000 - zeroUnix)
+
+	return b.Mul(b, big.NewInt(1000000000))
+}()
+
+// tenc prints a time for the rtpfb cases: 2*t, or 2*(t-TBASE)+1 for present-day instants.
+func tenc(t time.Time) string {
+	if t.IsZero() {
+		return "0"
+	}
+	v, _ := new(big.Int).SetString(tz(t), 10)
+	lim := new(big.Int).Sub(tbase, big.NewInt(1000000000000000))
+	if v.Cmp(lim) >= 0 {
+		v.Sub(v, tbase).Mul(v, big.NewInt(2)).Add(v, big.NewInt(1))
+	} else {
+		v.Mul(v, big.NewInt(2))
+	}
+
+	return zs(v.String())
+}
+
+type ropJ struct {
+	K string `json:"k"` // send | run | read
+	// send / run
+	TW   bool   `json:"tw,omitempty"`  // stream negotiated the TWCC extension
+	Ext  int    `json:"ext,omitempty"` // header carries: 0 none, 1 two-byte TWCC extension, 2 one-byte (unparsable)
+	Twcc uint16 `json:"twcc,omitempty"`
+	SSRC uint32 `json:"ssrc,omitempty"`
+	Seq  uint16 `json:"seq,omitempty"`
+	CSRC int    `json:"csrc,omitempty"`
+	Size int    `json:"size,omitempty"` // payload length
+	Now  int64  `json:"now,omitempty"`  // Unix ns returned by the time factory
+	DNow int64  `json:"dnow,omitempty"`
+	N    int    `json:"n,omitempty"`
+	// read: the RTCP packets of the compound that is read (k = twcc | ccfb | other)
+	Pkts []opJ `json:"pkts,omitempty"`
+}
+
+type repJ struct {
+	SSRC    uint32 `json:"ssrc"`
+	Ctr     uint64 `json:"ctr"`
+	Seq     uint16 `json:"seq"`
+	IsTWCC  bool   `json:"istwcc"`
+	Twcc    uint16 `json:"twcc"`
+	Size    int    `json:"size"`
+	Dep     string `json:"dep"`
+	Arrived bool   `json:"arrived"`
+	Arr     string `json:"arr"`
+	ECN     uint8  `json:"ecn"`
+	coq     string
+}
+
+type fbCase struct {
+	Ops  []ropJ    `json:"ops"`
+	Outs [][]repJ  `json:"outs"`
+	coq  []string
+	info map[string]bool
+}
+
+func b01(b bool) string {
+	if b {
+		return "1"
+	}
+
+	return "0"
+}
+
+func fbpktTerm(p rtcp.Packet) string {
+	switch fb := p.(type) {
+	case *rtcp.TransportLayerCC:
+		cs, ds := chunkTerms(fb)
+
+		return cq.C("FTw", cq.ZU(uint64(fb.BaseSequenceNumber)), cq.ZU(uint64(fb.PacketStatusCount)),
+			cq.ZU(uint64(fb.ReferenceTime)), cs, ds)
+	case *rtcp.CCFeedbackReport:
+		return cq.C("FCf", cq.ZU(uint64(fb.ReportTimestamp)), "(map rb_of "+blocksTerm(fb)+")")
+	default:
+		return "FOther"
+	}
+}
+
+func (o opJ) packetBytes() []byte {
+	if o.K == "other" {
+		raw, err := (&rtcp.SenderReport{SSRC: 99, NTPTime: 1, RTPTime: 2, PacketCount: 3, OctetCount: 4}).Marshal()
+		if err != nil {
+			panic(err)
+		}
+
+		return raw
+	}
+
+	return o.rawBytes()
+}
+
+// runFB drives the real rtpfb interceptor through its public interface.
+func runFB(ops []ropJ) (c fbCase, panicked string) {
+	c = fbCase{Ops: ops, Outs: [][]repJ{}, info: map[string]bool{}}
+	defer func() {
+		if r := recover(); r != nil {
+			panicked = fmt.Sprint(r)
+		}
+	}()
+	var cur time.Time
+	f, err := rtpfb.NewInterceptor(rtpfb.VerifTimeFactory(func() time.Time { return cur }))
+	if err != nil {
+		panic(err)
+	}
+	ic, err := f.NewInterceptor("")
+	if err != nil {
+		panic(err)
+	}
+	type skey struct {
+		ssrc uint32
+		tw   bool
+	}
+	writers := map[skey]interceptor.RTPWriter{}
+	writer := func(ssrc uint32, tw bool) interceptor.RTPWriter {
+		if w, ok := writers[skey{ssrc, tw}]; ok {
+			return w
+		}
+		info := &interceptor.StreamInfo{SSRC: ssrc}
+		if tw {
+			info.RTPHeaderExtensions = []interceptor.RTPHeaderExtension{{URI: transportCCURI, ID: 5}}
+		}
+		w := ic.BindLocalStream(info, interceptor.RTPWriterFunc(
+			func(_ *rtp.Header, p []byte, _ interceptor.Attributes) (int, error) { return len(p), nil }))
+		writers[skey{ssrc, tw}] = w
+
+		return w
+	}
+	var curRaw []byte
+	reader := ic.BindRTCPReader(interceptor.RTCPReaderFunc(
+		func(b []byte, a interceptor.Attributes) (int, interceptor.Attributes, error) {
+			return copy(b, curRaw), a, nil
+		}))
+	send := func(o ropJ, i int) (hsize int) {
+		h := header(opJ{ExtID: 5, Ext: o.Ext, Twcc: o.Twcc, SSRC: o.SSRC, Seq: o.Seq, CSRC: o.CSRC}, i)
+		cur = time.Unix(0, o.Now+int64(i)*o.DNow)
+		size := o.Size
+		if o.K == "run" {
+			size += i % 5
+		}
+		if _, err := writer(o.SSRC, o.TW).Write(&h, make([]byte, size), nil); err != nil {
+			panic(err)
+		}
+
+		return h.MarshalSize()
+	}
+	for _, o := range ops {
+		switch o.K {
+		case "send":
+			hs := send(o, 0)
+			ext := cq.None
+			if o.Ext == 1 {
+				ext = cq.Some(cq.ZU(uint64(o.Twcc)))
+			}
+			c.coq = append(c.coq, cq.C("RS", cq.B(o.TW), ext, cq.ZU(uint64(o.SSRC)), cq.ZU(uint64(o.Seq)),
+				cq.Z(int64(hs+o.Size)), tenc(time.Unix(0, o.Now))))
+		case "run":
+			hs := 0
+			for i := 0; i < o.N; i++ {
+				hs = send(o, i)
+			}
+			c.coq = append(c.coq, cq.C("RRun", cq.B(o.TW), cq.ZU(uint64(o.SSRC)), cq.ZU(uint64(o.Seq)),
+				cq.ZU(uint64(o.Twcc)), cq.Z(int64(hs+o.Size)), tenc(time.Unix(0, o.Now)), cq.Z(o.DNow), cq.Z(int64(o.N))))
+		case "read":
+			curRaw = nil
+			var parsed []rtcp.Packet
+			for _, p := range o.Pkts {
+				raw := p.packetBytes()
+				pk := parse(raw)
+				if pk == nil {
+					panic("read holds a packet the parser refuses")
+				}
+				parsed = append(parsed, pk)
+				curRaw = append(curRaw, raw...)
+			}
+			cur = time.Unix(0, o.Now)
+			now := tenc(cur)
+			if len(parsed) == 1 {
+				switch fb := parsed[0].(type) {
+				case *rtcp.TransportLayerCC:
+					cs, ds := chunkTerms(fb)
+					c.coq = append(c.coq, cq.C("RTw", now, cq.ZU(uint64(fb.BaseSequenceNumber)),
+						cq.ZU(uint64(fb.PacketStatusCount)), cq.ZU(uint64(fb.ReferenceTime)), cs, ds))
+				case *rtcp.CCFeedbackReport:
+					c.coq = append(c.coq, cq.C("RCf", now, cq.ZU(uint64(fb.ReportTimestamp)), blocksTerm(fb)))
+				default:
+					c.coq = append(c.coq, cq.C("RMulti", now, "[FOther]"))
+					c.info["read-without-feedback"] = true
+				}
+			} else {
+				ts := make([]string, len(parsed))
+				for i, pk := range parsed {
+					ts[i] = fbpktTerm(pk)
+				}
+				c.coq = append(c.coq, cq.C("RMulti", now, cq.L(ts)))
+				c.info["compound"] = true
+			}
+			buf := make([]byte, 70000)
+			_, attr, err := reader.Read(buf[:len(curRaw)], nil)
+			if err != nil {
+				panic(err)
+			}
+			out := []repJ{}
+			if rep, ok := attr.Get(rtpfb.CCFBAttributesKey).(rtpfb.Report); ok {
+				for _, p := range rep.PacketReports {
+					r := repJ{SSRC: p.SSRC, Ctr: p.SequenceNumber, Seq: p.RTPSequenceNumber, IsTWCC: p.IsTWCC,
+						Twcc: p.TWCCSequenceNumber, Size: p.Size, Dep: tz(p.Departure), Arrived: p.Arrived,
+						Arr: tz(p.Arrival), ECN: uint8(p.ECN)}
+					r.coq = strings.Join([]string{cq.ZU(uint64(p.SSRC)), cq.ZU(p.SequenceNumber), cq.ZU(uint64(p.RTPSequenceNumber)),
+						b01(p.IsTWCC), cq.ZU(uint64(p.TWCCSequenceNumber)), cq.Z(int64(p.Size)), tenc(p.Departure),
+						b01(p.Arrived), tenc(p.Arrival), cq.ZU(uint64(p.ECN))}, "; ")
+					out = append(out, r)
+				}
+			}
+			c.Outs = append(c.Outs, out)
+		}
+	}
+
+	return c, ""
+}
+
+func (c fbCase) toCase(buckets ...string) cq.Case {
+	outs := make([]string, len(c.Outs))
+	nrep := 0
+	for i, o := range c.Outs {
+		rs := make([]string, len(o))
+		for k, r := range o {
+			rs[k] = r.coq
+			nrep++
+		}
+		outs[i] = "[" + strings.Join(rs, "; ") + "]"
+	}
+	for b := range c.info {
+		buckets = append(buckets, b)
+	}
+
+	return cq.Case{Coq: cq.T(cq.L(c.coq), cq.L(outs)), JSON: c, Buckets: buckets, Trivial: nrep == 0}
 }
 
 // ---------- feedback construction ----------
@@ -797,6 +1044,217 @@ func genCCFB(r *rand.Rand) ([]opJ, []string) {
 	return ops, out
 }
 
+// genFB: a history for the rtpfb interceptor: TWCC-tracked and (SSRC, seq)-tracked streams,
+// interleaved sends, reads with TWCC / CCFB / other RTCP, compounds, retransmissions.
+func genFB(r *rand.Rand) ([]ropJ, []string) {
+	var ops []ropJ
+	tags := map[string]bool{}
+	type st struct {
+		ssrc  uint32
+		tw    bool
+		seq   uint16
+		first uint16
+		n     int
+	}
+	ns := 1 + r.Intn(3)
+	var streams []*st
+	for i := 0; i < ns; i++ {
+		x := &st{ssrc: uint32(10 + i), tw: r.Intn(2) == 0, seq: uint16(r.Intn(65536))} //nolint:gosec
+		if r.Intn(4) == 0 {
+			x.seq = uint16(65536 - r.Intn(30)) //nolint:gosec
+			tags["rtp-wrap"] = true
+		}
+		x.first = x.seq
+		streams = append(streams, x)
+	}
+	tseq0 := uint16(r.Intn(65536)) //nolint:gosec
+	if r.Intn(3) == 0 {
+		tseq0 = uint16(65536 - r.Intn(40)) //nolint:gosec
+		tags["twcc-wrap"] = true
+	}
+	tcnt := 0
+	now := int64(1700000000)*1000000000 + int64(r.Intn(1000000))*1000
+	phases := 1 + r.Intn(4)
+	if r.Intn(5) == 0 { // a read before anything was acknowledged
+		if r.Intn(2) == 0 {
+			ops = append(ops, ropJ{K: "run", TW: streams[0].tw, Ext: 1, Twcc: tseq0, SSRC: streams[0].ssrc, Seq: streams[0].seq,
+				Size: 100, Now: now, DNow: 1000, N: 2})
+			if streams[0].tw {
+				tcnt += 2
+			}
+			streams[0].seq += 2
+			streams[0].n += 2
+			now += 5000
+		}
+		ops = append(ops, ropJ{K: "read", Now: now, Pkts: []opJ{{K: "other"}}})
+		tags["other-rtcp-first"] = true
+	}
+	for ph := 0; ph < phases; ph++ {
+		for k := 0; k < 1+r.Intn(3); k++ {
+			x := streams[r.Intn(len(streams))]
+			n := 1 + r.Intn(25)
+			o := ropJ{K: "run", TW: x.tw, SSRC: x.ssrc, Seq: x.seq, CSRC: r.Intn(2), Size: r.Intn(1200), Now: now,
+				DNow: int64(1 + r.Intn(2000000)), N: n}
+			if x.tw {
+				o.Ext = 1
+				o.Twcc = tseq0 + uint16(tcnt) //nolint:gosec
+				tcnt += n
+			}
+			ops = append(ops, o)
+			x.seq += uint16(n) //nolint:gosec
+			x.n += n
+			now += int64(n) * o.DNow
+			if x.tw && r.Intn(12) == 0 { // TWCC stream, packet without the extension: tracked by (SSRC, seq)
+				ops = append(ops, ropJ{K: "send", TW: true, Ext: []int{0, 2}[r.Intn(2)], SSRC: x.ssrc, Seq: x.seq, Size: 50, Now: now})
+				x.seq++
+				x.n++
+				now += 1000
+				tags["twcc-stream-without-extension"] = true
+			}
+			if !x.tw && x.n > 2 && r.Intn(6) == 0 { // retransmission with the same SSRC and sequence number
+				ops = append(ops, ropJ{K: "send", SSRC: x.ssrc, Seq: x.seq - uint16(1+r.Intn(x.n-1)), Size: 60, Now: now}) //nolint:gosec
+				now += 1000
+				tags["retransmission-same-seq"] = true
+			}
+		}
+		now += int64(r.Intn(50000000))
+		nreads := 1 + r.Intn(3)
+		for rd := 0; rd < nreads; rd++ {
+			var pkts []opJ
+			for len(pkts) == 0 || (r.Intn(5) == 0 && len(pkts) < 3) {
+				switch r.Intn(7) {
+				case 0:
+					pkts = append(pkts, opJ{K: "other"})
+				case 1, 2, 3:
+					if tcnt == 0 {
+						continue
+					}
+					off := r.Intn(tcnt) - r.Intn(3)
+					if tcnt > 40 && r.Intn(2) == 0 {
+						off = tcnt - 1 - r.Intn(40)
+					}
+					base := tseq0 + uint16(off) //nolint:gosec
+					if r.Intn(3) == 0 {
+						for _, raw := range recorderTWCC(r, base, 3+r.Intn(40)) {
+							pkts = append(pkts, opJ{K: "twcc", Raw: hex.EncodeToString(raw)})
+							tags["twcc-recorder"] = true
+						}
+					} else if raw, t := handTWCC(r, base, 1+r.Intn(40), r.Intn(4) == 0); raw != nil {
+						pkts = append(pkts, opJ{K: "twcc", Raw: hex.EncodeToString(raw)})
+						for _, x := range t {
+							tags[x] = true
+						}
+					}
+				default:
+					var ss []stream
+					for _, x := range streams {
+						if !x.tw && x.n > 0 {
+							back := r.Intn(x.n)
+							if back > 40 {
+								back = r.Intn(40)
+							}
+							ss = append(ss, stream{ssrc: x.ssrc, first: x.seq - uint16(back) - 1, n: back + 1 + r.Intn(3)}) //nolint:gosec
+						}
+					}
+					if len(ss) == 0 {
+						continue
+					}
+					var raw []byte
+					if r.Intn(2) == 0 {
+						raw = recorderCCFBAt(r, ss, now)
+						tags["ccfb-recorder"] = true
+					} else {
+						raw = handCCFBAt(r, ss, now)
+						tags["ccfb-hand"] = true
+					}
+					if raw != nil {
+						pkts = append(pkts, opJ{K: "ccfb", Raw: hex.EncodeToString(raw)})
+					}
+				}
+			}
+			if len(pkts) > 3 {
+				pkts = pkts[:3]
+			}
+			ops = append(ops, ropJ{K: "read", Now: now, Pkts: pkts})
+			now += int64(r.Intn(20000000))
+			if r.Intn(8) == 0 { // the same compound once more
+				ops = append(ops, ropJ{K: "read", Now: now, Pkts: pkts})
+				tags["duplicate-read"] = true
+			}
+		}
+	}
+	out := []string{}
+	for t := range tags {
+		out = append(out, t)
+	}
+
+	return ops, out
+}
+
+// recorderCCFBAt: the real rfc8888.Recorder with arrivals shortly before now.
+func recorderCCFBAt(r *rand.Rand, streams []stream, now int64) []byte {
+	rec := rfc8888.NewRecorder()
+	t := time.Unix(0, now-int64(200+r.Intn(400))*1000000)
+	if r.Intn(10) == 0 {
+		t = t.Add(-time.Duration(r.Intn(9000)) * time.Millisecond)
+	}
+	for _, s := range streams {
+		for i := 0; i < s.n; i++ {
+			if r.Intn(5) == 0 {
+				continue
+			}
+			t = t.Add(time.Duration(r.Intn(3000)) * time.Microsecond)
+			rec.AddPacket(t, s.ssrc, s.first+uint16(i), uint8(r.Intn(4))) //nolint:gosec
+		}
+	}
+	rep := rec.BuildReport(t.Add(time.Duration(r.Intn(20000))*time.Microsecond), 1200+r.Intn(3000))
+	if rep == nil {
+		return nil
+	}
+
+	return marshalCCFB(rep)
+}
+
+// handCCFBAt: hand-built report blocks, at most one per SSRC, timestamp close to now.
+func handCCFBAt(r *rand.Rand, streams []stream, now int64) []byte {
+	fb := &rtcp.CCFeedbackReport{SenderSSRC: 3,
+		ReportTimestamp: verifhooks.ToNTP32(time.Unix(0, now-int64(r.Intn(100000000))))}
+	for _, s := range streams {
+		if r.Intn(4) == 0 {
+			continue
+		}
+		ssrc := s.ssrc
+		if r.Intn(8) == 0 {
+			ssrc += 1000
+		}
+		rb := rtcp.CCFeedbackReportBlock{MediaSSRC: ssrc, BeginSequence: s.first - uint16(r.Intn(3))} //nolint:gosec
+		for i := 0; i < s.n+r.Intn(4); i++ {
+			mb := rtcp.CCFeedbackMetricBlock{}
+			if r.Intn(4) != 0 {
+				mb.Received = true
+				mb.ECN = rtcp.ECN(r.Intn(4)) //nolint:gosec
+				switch r.Intn(8) {
+				case 0:
+					mb.ArrivalTimeOffset = 0x1FFF
+				case 1:
+					mb.ArrivalTimeOffset = 0x1FFE
+				case 2:
+					mb.ArrivalTimeOffset = 0
+				default:
+					mb.ArrivalTimeOffset = uint16(r.Intn(0x2000)) //nolint:gosec
+				}
+			}
+			rb.MetricBlocks = append(rb.MetricBlocks, mb)
+		}
+		fb.ReportBlocks = append(fb.ReportBlocks, rb)
+	}
+	if len(fb.ReportBlocks) == 0 {
+		return nil
+	}
+
+	return marshalCCFB(fb)
+}
+
 func main() {
 	o := cq.ParseFlags()
 	r := o.Rand()
@@ -809,7 +1267,28 @@ func main() {
 			Checks: []string{"cc_mismatches", "cc_spec_failures"},
 		})
 	}
+	const nFB = 4
+	var fbSets []*cq.Set
+	for i := 0; i < nFB; i++ {
+		fbSets = append(fbSets, &cq.Set{
+			Name: fmt.Sprintf("c09fb%d", i), Import: "IV.Check.C09Check", CaseType: "fb_case",
+			Checks: []string{"fb_mismatches", "fb_spec_failures"},
+		})
+	}
+	sets = append(sets, fbSets...)
 	var fails []cq.ImplFailure
+	fbCount := 0
+	addFB := func(ops []ropJ, buckets ...string) {
+		c, p := runFB(ops)
+		if p != "" {
+			fails = append(fails, cq.ImplFailure{Kind: "panic", Detail: p, Case: fbCase{Ops: ops}})
+
+			return
+		}
+		set := fbSets[fbCount%nFB]
+		fbCount++
+		set.Cases = append(set.Cases, c.toCase(buckets...))
+	}
 	ccCount := 0
 	addCC := func(ops []opJ, buckets ...string) {
 		c, p := runCC(ops)
@@ -825,11 +1304,24 @@ func main() {
 	if o.Replay != "" {
 		var probe map[string]interface{}
 		set := cq.LoadReplay(o.Replay, &probe)
+		var fbProbe fbCase
+		if set == "impl-panic" {
+			cq.LoadReplay(o.Replay, &fbProbe)
+			for _, op := range fbProbe.Ops {
+				if op.K == "read" || op.K == "send" {
+					set = "c09fb"
+				}
+			}
+		}
 		switch {
 		case strings.HasPrefix(set, "c09cc"), set == "impl-panic":
 			var c ccCase
 			cq.LoadReplay(o.Replay, &c)
 			addCC(c.Ops, "replay")
+		case strings.HasPrefix(set, "c09fb"):
+			var c fbCase
+			cq.LoadReplay(o.Replay, &c)
+			addFB(c.Ops, "replay")
 		}
 		cq.Write(o, "replay", sets, nil, fails)
 
@@ -837,10 +1329,15 @@ func main() {
 	}
 	for _, f := range o.CorpusFiles() {
 		var probe map[string]interface{}
-		if strings.HasPrefix(cq.LoadReplay(f, &probe), "c09cc") {
+		switch set := cq.LoadReplay(f, &probe); {
+		case strings.HasPrefix(set, "c09cc"):
 			var c ccCase
 			cq.LoadReplay(f, &c)
 			addCC(c.Ops, "corpus")
+		case strings.HasPrefix(set, "c09fb"):
+			var c fbCase
+			cq.LoadReplay(f, &c)
+			addFB(c.Ops, "corpus")
 		}
 	}
 	ncc := o.Scale(600, 30000)
@@ -853,7 +1350,13 @@ func main() {
 			addCC(ops, append(tags, "twcc")...)
 		}
 	}
+	nfb := o.Scale(400, 20000)
+	for i := 0; i < nfb; i++ {
+		ops, tags := genFB(r)
+		addFB(ops, tags...)
+	}
 	cq.Write(o, "cc: send histories (TWCC-keyed and (SSRC, seq)-keyed, wrap, holes, more than 250 in flight) with 1..6 "+
 		"parser-accepted feedback packets (real recorders and hand-structured); non-trivial = at least one "+
-		"acknowledgement of a sent packet was returned", sets, nil, fails)
+		"acknowledgement of a sent packet was returned; fb: rtpfb interceptor histories (TWCC- and (SSRC, seq)-tracked streams, "+
+		"retransmissions, reads with TWCC/CCFB/other RTCP and compounds); non-trivial = at least one PacketReport", sets, nil, fails)
 }
